@@ -309,6 +309,7 @@ pub fn subscribe_sink(root: &O, u: i64, w: &W, react: React, slot: Arc<Mutex<Opt
   let seen = Arc::new(Mutex::new(0i64));
   let (w1, w2, w3) = (w.clone(), w.clone(), w.clone());
   let (t1, t2, t3) = (tok.clone(), tok.clone(), tok);
+  let emit_at = react.emit_at;
   root.subscribe(
     move |x| {
       let _ = &t1;
@@ -343,13 +344,35 @@ pub fn subscribe_sink(root: &O, u: i64, w: &W, react: React, slot: Arc<Mutex<Opt
     },
     move |e| {
       let _ = &t2;
-      log(&w2, "cb", u, "e", payload(&e), 0)
+      log(&w2, "cb", u, "e", payload(&e), 0);
+      term_react(&w2, emit_at, true);
     },
     move || {
       let _ = &t3;
-      log(&w3, "cb", u, "c", 0, 0)
+      log(&w3, "cb", u, "c", 0, 0);
+      term_react(&w3, emit_at, false);
     },
   )
+}
+
+/// reaction `emit_at = -1`: from inside the terminal callback push next(7) and then the OTHER terminal into the first observer an
+/// instrumented source was handed (a user-written hot source driven re-entrantly)
+fn term_react(w: &W, emit_at: i64, got_error: bool) {
+  if emit_at != -1 {
+    return;
+  }
+  let s = {
+    let g = w.lock().unwrap();
+    g.regs.iter().skip(1).find(|v| !v.is_empty()).map(|v| v[0].clone())
+  };
+  if let Some(s) = s {
+    s.next(7);
+    if got_error {
+      s.complete();
+    } else {
+      s.error(err(6));
+    }
+  }
 }
 
 /// compare what the crate did with what the implementation-shaped model (L1) predicts; None = agreement
